@@ -34,6 +34,14 @@ type feature struct {
 }
 
 func (w *world) feat(f string) { w.features = append(w.features, f) }
+func (w *world) hasFeature(f string) bool {
+	for _, x := range w.features {
+		if x == f {
+			return true
+		}
+	}
+	return false
+}
 
 func pickHost(r *vlib.Rand) string { return vlib.Pick(r, fHosts[:5]) }
 
@@ -290,6 +298,9 @@ func fGateway(r *vlib.Rand, w *world, i int) {
 			fmt.Fprintf(&b, "    - \"%s\"\n", h)
 			if h != strings.ToLower(h) {
 				w.feat("gw-mixed-case-host")
+			}
+			if strings.Contains(h, "/") {
+				w.feat("gw-ns-qualified-host")
 			}
 		}
 		switch {
